@@ -1,9 +1,13 @@
 mod input_replay;
+mod mem;
 mod obs;
 mod scen;
 mod val;
 mod rw;
 mod util;
+
+#[global_allocator]
+static ALLOC: mem::Counting = mem::Counting;
 
 fn main() {
     util::quiet_panics();
@@ -14,6 +18,10 @@ fn main() {
     match cmd {
         "input-replay" => input_replay::run(&arg(2), num(3, 6) as usize, num(4, 2_000_000)),
         "record-obs" => scen::record(&arg(2), &arg(3), num(4, 50)),
+        "record-mem" => {
+            let sizes: Vec<usize> = arg(4).split(',').filter_map(|s| s.parse().ok()).collect();
+            mem::record(&arg(2), num(3, 20000), if sizes.is_empty() { &[100] } else { &sizes })
+        }
         "gen-dump" => {
             // self-test of the generators/encoders: id, fmt, hex, expected tree
             let n = num(2, 100);
